@@ -130,17 +130,17 @@ example : ringToShapePath [⟨0, 0⟩, ⟨4, 0⟩, ⟨4, 4⟩, ⟨0, 4⟩, ⟨0,
 
 /-! ### `polygon_from_shape` -/
 
-theorem ringFromPath_closed (q : Path) : ringClosed (ringFromPath q) = true := by
+private theorem ringFromPath_closed (q : Path) : ringClosed (ringFromPath q) = true := by
   unfold ringFromPath lineStringFromPath
   rw [Geo.Proofs.C05L.ringClosed_reverse]
   have := Geo.Proofs.C18.close_closed q
   simpa [ringClosed, SM.isClosed] using this
 
-theorem close_ringFromPath (q : Path) : SM.close (ringFromPath q) = ringFromPath q :=
+private theorem close_ringFromPath (q : Path) : SM.close (ringFromPath q) = ringFromPath q :=
   Geo.Proofs.C18.close_of_closed _ (by simpa [ringClosed, SM.isClosed] using ringFromPath_closed q)
 
 /-- the rings of the rebuilt polygon: one per path, in order (an empty exterior if there is none) -/
-theorem polygonFromShape_rings (sh : Shape) :
+private theorem polygonFromShape_rings (sh : Shape) :
     (polygonFromShape sh).rings = if sh = [] then [[]] else sh.map ringFromPath := by
   cases sh with
   | nil => simp [polygonFromShape, Poly.rings, SM.close, SM.isClosed]
@@ -160,7 +160,7 @@ theorem polygonFromShape_closed (sh : Shape) : ∀ r ∈ (polygonFromShape sh).r
   · obtain ⟨q, _, rfl⟩ := List.mem_map.1 hr
     exact ringFromPath_closed q
 
-theorem shoelace2_ringFromPath (q : Path) : shoelace2 (ringFromPath q) = - pathArea2 q := by
+private theorem shoelace2_ringFromPath (q : Path) : shoelace2 (ringFromPath q) = - pathArea2 q := by
   unfold ringFromPath lineStringFromPath pathArea2
   exact Geo.Proofs.C05L.shoelace2_reverse _
 
@@ -182,7 +182,7 @@ theorem polygonFromShape_winding (sh : Shape) (h : shapeOk sh = true) :
       have := hh q hq
       linarith
 
-theorem windRing_ringFromPath (p : Pt) (q : Path) : windRing p (ringFromPath q) = - windPath p q := by
+private theorem windRing_ringFromPath (p : Pt) (q : Path) : windRing p (ringFromPath q) = - windPath p q := by
   unfold windRing ringFromPath lineStringFromPath windPath
   rw [wind_segs_reverse, wind_close]
 
@@ -214,14 +214,14 @@ theorem multiPolygonFromShapes_inside (p : Pt) (ss : List Shape) :
 
 /-! ### `boolean_op` — for every engine meeting the specification -/
 
-theorem windRings_append (p : Pt) (r1 r2 : List (List Pt)) :
+private theorem windRings_append (p : Pt) (r1 r2 : List (List Pt)) :
     windRings p (r1 ++ r2) = windRings p r1 + windRings p r2 := by
   induction r1 with
   | nil => simp [windRings]
   | cons r t ih => simp only [List.cons_append, windRings, ih]; omega
 
 /-- the paths of an operand carry the winding number of its rings -/
-theorem windPaths_rings (p : Pt) (rs : List (List Pt)) (hc : ∀ r ∈ rs, ringClosed r = true) :
+private theorem windPaths_rings (p : Pt) (rs : List (List Pt)) (hc : ∀ r ∈ rs, ringClosed r = true) :
     windPaths p (rs.map ringToShapePath) = windRings p rs := by
   induction rs with
   | nil => rfl
@@ -238,7 +238,7 @@ theorem fillRegion_evenOdd_rings (p : Pt) (rs : List (List Pt)) (hc : ∀ r ∈ 
   show ((-(windRings p rs)) % 2 != 0) = (windRings p rs % 2 != 0)
   rw [this]
 
-theorem paths_ok (ra rb : List (List Pt)) :
+private theorem paths_ok (ra rb : List (List Pt)) :
     ∀ q ∈ ra.map ringToShapePath ++ rb.map ringToShapePath, pathOk q = true := by
   intro q hq
   rcases List.mem_append.1 hq with h | h <;>
@@ -314,7 +314,7 @@ structure WindingValid (ms : List Poly) (σ : Int) (p : Pt) : Prop where
   member : ∀ m ∈ ms, windRings p m.rings = if polyInside p m = true then σ else 0
   closed : ∀ m ∈ ms, ∀ r ∈ m.rings, ringClosed r = true
 
-theorem windRings_members (p : Pt) (σ : Int) (ms : List Poly)
+private theorem windRings_members (p : Pt) (σ : Int) (ms : List Poly)
     (hm : ∀ m ∈ ms, windRings p m.rings = if polyInside p m = true then σ else 0) :
     windRings p (ms.flatMap Poly.rings) = σ * (ms.countP (polyInside p) : Nat) := by
   induction ms with
@@ -326,7 +326,7 @@ theorem windRings_members (p : Pt) (σ : Int) (ms : List Poly)
     · simp only [h, if_true]; push_cast; ring
     · simp only [h]; simp
 
-theorem rings_singletons (ms : List Poly) : (ms.map (fun m => [m])).flatMap rings = ms.flatMap Poly.rings := by
+private theorem rings_singletons (ms : List Poly) : (ms.map (fun m => [m])).flatMap rings = ms.flatMap Poly.rings := by
   induction ms with
   | nil => rfl
   | cons m t ih =>
@@ -388,7 +388,7 @@ theorem foldUnion_region (p : Pt) (ms : List Poly) :
 
 /-! ### `clip` -/
 
-theorem multiLineStringFromPaths_id (ps : List Path) : multiLineStringFromPaths ps = ps := by
+private theorem multiLineStringFromPaths_id (ps : List Path) : multiLineStringFromPaths ps = ps := by
   unfold multiLineStringFromPaths lineStringFromPath
   exact List.map_id' ps
 
@@ -485,9 +485,9 @@ def E1 : Engine :=
       if onLines ⟨1, 1⟩ l && (fillRegion f c ⟨1, 1⟩ != invert) then [[⟨1, 1⟩]] else [] }
 def far1 (p : Pt) (_ : List Path) : Prop := p = ⟨1, 1⟩
 
-theorem sqShape_inside : shapesInside ⟨1, 1⟩ [sqShape] = true := by decide +kernel
-theorem sqShape_ok : shapeOk sqShape = true := by decide +kernel
-theorem pt_onLines : onLines ⟨1, 1⟩ [[⟨1, 1⟩]] = true := by decide +kernel
+private theorem sqShape_inside : shapesInside ⟨1, 1⟩ [sqShape] = true := by decide +kernel
+private theorem sqShape_ok : shapeOk sqShape = true := by decide +kernel
+private theorem pt_onLines : onLines ⟨1, 1⟩ [[⟨1, 1⟩]] = true := by decide +kernel
 
 theorem E1_spec : EngineSpec E1 far1 where
   overlay_region := by
